@@ -302,6 +302,8 @@ Proof.
     destruct (c_tpm c); cbn in Hin; intuition (subst; destruct Hs).
   - destruct panics; [discriminate|]. inversion H; subst. cbn. eapply action_targets_in; eauto.
   - inversion H; subst. destruct Hin as [<-|[]]. exact Hs.
+  - inversion H; subst. destruct (c_tpm c); cbn in Hin; intuition (subst; destruct Hs).
+  - discriminate.
 Qed.
 
 Lemma exec_step_sw_target ts c e c' g :
@@ -762,4 +764,112 @@ Proof.
     - apply first_switch_none_cons in Hn. destruct Hn as [Hn1 Hn2].
       cbn [app executed]. rewrite Hn1. unfold apply_all in *. cbn [fold_left] in *. apply IH; assumption. }
   apply Hex; assumption.
+Qed.
+
+(** * Steps whose [Actions] panics, at machine level (nil steps) *)
+
+(** NextStep on a step whose [Actions] panics — a nil [types.Step] in
+    [Flow.Steps], a merged step with a nil element, a panicking condition ... —
+    appends the entry with the step->actions issue and reports that a step was
+    executed ([true]: Finish goes on); the state is untouched and the steps
+    still to be executed are the FOLLOWING steps of the same flow. *)
+Lemma step_panic_machine fam st log sid body more :
+  sized fam -> uint_ok st ->
+  remaining fam st = (sid, body) :: more ->
+  actions_of body (ms_core st) = Panic ->
+  exists st',
+    next_step fam st log =
+      Ok (st', log ++ [mkEntry sid [] (ICActions :: snd (actor_part (ms_core st))) []
+                               (c_actor (ms_core st)) (fst (actor_part (ms_core st)))], true) /\
+    ms_core st' = ms_core st /\ uint_ok st' /\ remaining fam st' = more.
+Proof.
+  intros Hsz Hu Hrem Hp.
+  pose proof (step_panic_contained sid body (ms_core st) Hp) as Hex.
+  destruct (next_step_exec fam st log _ more _ _ _ Hsz Hu Hrem Hex) as (st' & H & Hc & Hu' & Hr).
+  exists st'. auto.
+Qed.
+
+Lemma nil_step_machine fam st log sid more :
+  sized fam -> uint_ok st ->
+  remaining fam st = (sid, SNil) :: more ->
+  exists st',
+    next_step fam st log =
+      Ok (st', log ++ [mkEntry sid [] (ICActions :: snd (actor_part (ms_core st))) []
+                               (c_actor (ms_core st)) (fst (actor_part (ms_core st)))], true) /\
+    ms_core st' = ms_core st /\ uint_ok st' /\ remaining fam st' = more.
+Proof. intros Hsz Hu Hrem. exact (step_panic_machine fam st log sid SNil more Hsz Hu Hrem eq_refl). Qed.
+
+(** a flow consisting of holes only is still executed hole by hole *)
+Lemma spec_run_all_nil fam : forall (sids : list Z) n c,
+  (length sids < n)%nat ->
+  spec_run n fam (map (fun sid => (sid, SNil)) sids) c =
+    (map (fun sid => mkEntry sid [] (ICActions :: snd (actor_part c)) [] (c_actor c) (fst (actor_part c))) sids,
+     c, true).
+Proof.
+  induction sids as [|sid t IH]; intros n c Hn; (destruct n as [|n]; [cbn in Hn; lia|]).
+  - reflexivity.
+  - cbn [map spec_run]. rewrite (step_panic_contained sid SNil c eq_refl).
+    cbn [length] in Hn. rewrite IH by lia. reflexivity.
+Qed.
+
+(** * Negated conditions ([commonconds.Not]) *)
+
+(** [n] times [commonconds.Not] around a condition *)
+Fixpoint nots (n : nat) (cd : cond) : cond :=
+  match n with O => cd | S k => CNot (nots k cd) end.
+
+Lemma eval_cond_not cd c :
+  eval_cond (CNot cd) c = match eval_cond cd c with Ok b => Ok (negb b) | o => o end.
+Proof. reflexivity. Qed.
+
+Lemma eval_cond_nots : forall n cd c,
+  eval_cond (nots n cd) c =
+    match eval_cond cd c with Ok b => Ok (if Nat.even n then b else negb b) | o => o end.
+Proof.
+  induction n as [|n IH]; intros cd c.
+  - cbn. destruct (eval_cond cd c); reflexivity.
+  - cbn [nots]. rewrite eval_cond_not, IH. rewrite Nat.even_succ, <- Nat.negb_even.
+    destruct (eval_cond cd c) as [b| | |]; try reflexivity.
+    destruct (Nat.even n), b; reflexivity.
+Qed.
+
+(** a conditional step on a negated condition is the conditional with its
+    branches exchanged ... *)
+Lemma if_not_swaps cd t e c :
+  actions_of (SIf (CNot cd) t e) c = actions_of (SIf cd e t) c.
+Proof.
+  cbn [actions_of]. rewrite eval_cond_not.
+  destruct (eval_cond cd c) as [[|]| | |]; reflexivity.
+Qed.
+
+(** ... so [n] negations exchange them iff [n] is odd *)
+Lemma if_nots n cd t e c :
+  actions_of (SIf (nots n cd) t e) c =
+    if Nat.even n then actions_of (SIf cd t e) c else actions_of (SIf cd e t) c.
+Proof.
+  cbn [actions_of]. rewrite eval_cond_nots.
+  destruct (eval_cond cd c) as [[|]| | |]; destruct (Nat.even n); reflexivity.
+Qed.
+
+(** the same for the function handed to SetFlowFunc / SetFlowFromFunc *)
+Lemma ffun_nots n cd t e c :
+  eval_ffun (FIf (nots n cd) t e) c =
+    if Nat.even n then eval_ffun (FIf cd t e) c else eval_ffun (FIf cd e t) c.
+Proof.
+  cbn [eval_ffun]. rewrite eval_cond_nots.
+  destruct (eval_cond cd c) as [[|]| | |]; destruct (Nat.even n); reflexivity.
+Qed.
+
+Lemma nil_flow_log fam root sids c fuel :
+  sized fam -> lookup fam root = Some (map (fun sid => (sid, SNil)) sids) -> (length sids < fuel)%nat ->
+  exists st,
+    run fuel fam (init_state root c) [] =
+      Ok (st, map (fun sid => mkEntry sid [] (ICActions :: snd (actor_part c)) [] (c_actor c) (fst (actor_part c))) sids,
+          true) /\
+    ms_core st = c.
+Proof.
+  intros Hsz Hl Hf.
+  destruct (refines_spec_fuel fam root c fuel Hsz) as (st & H1 & H2).
+  unfold flow_steps in H1, H2. rewrite Hl in H1, H2.
+  rewrite (spec_run_all_nil fam sids fuel c Hf) in H1, H2. cbn [fst snd] in H1, H2. eauto.
 Qed.
